@@ -2,55 +2,79 @@
    This file only states theorems; proofs live in SV.C16Proofs / C16Frame / C16Schema / C16Analyse.
    Model: SV.Export (export_model, import_model and their parts, written after signac/import_export.py). *)
 From Coq Require Import String Ascii.
-From SV Require Import Base Json MD5 Canon Export CorrC16 C16Frame C16Schema C16Analyse C16Proofs.
+From SV Require Import Base Json MD5 Canon Export CorrC16 C16Paths C16Frame C16Zip C16Schema C16Analyse C16Proofs.
 Local Open Scope N_scope.
 
 (* ====================================================================================================
-   1.  "export rejects non-unique or leaf/node-conflicting paths"
-   FULL STATEMENT (false of the faithful model, see the _refuted theorems):
-     forall o jobs p ds, export_paths o jobs p = ROk ds -> locs_unique ds = true /\ locs_prefix_free ds = true.
-   PROVED: the same conclusion outside the three input classes F7 (no check at all for path=None/False),
-   F15 (leaf/node check only looks at earlier paths) and F20 (both checks compare raw strings). *)
+   1.  "export rejects non-unique or leaf/node-conflicting paths"   (repairs 55c0c50, fc0e7cc, 3dfa233)
+   FULL STATEMENT: forall o jobs p ds, export_paths o jobs p = ROk ds -> locs_unique ds /\ locs_prefix_free ds.
+   PROVED for every path specification and every order of the jobs, with one remaining side
+   condition: no accepted path normalises to the export root ('.' / '') - or there is only one job.
+   The side condition is necessary: C16_paths_checked_refuted_root.  The former exclusions of the
+   classes F7, F15, F20 are gone. *)
 Theorem C16_accepted_paths_consistent_partial : forall o jobs p ds,
   export_paths o jobs p = ROk ds ->
-  match p with PNone | PFalse => has_dup ds = false | _ => True end ->
-  exists_pair raw_nested ds = false ->
-  exists_pair f20_pair ds = false ->
+  (forall d, In d ds -> is_root d = false) ->
   locs_unique ds = true /\ locs_prefix_free ds = true.
 Proof. exact accepted_paths_consistent. Qed.
 Print Assumptions C16_accepted_paths_consistent_partial.
 
-Theorem C16_paths_checked_refuted_F7 :
-  export_paths (orc f7_jobs) f7_jobs PNone = ROk [q "a/1"; q "a/1"]
-  /\ (let e := export_model (orc f7_jobs) f7_jobs KDir PNone in
-      eo_exn e = Some EOSError /\ art_empty (eo_art e) = false)
-  /\ (let e := export_model (orc f7_jobs) f7_jobs KZip PNone in
+(* F20' (root): '.' next to another job is accepted although it is a leaf/node conflict, the second
+   job is lost in the round trip; '' and '.' pass the duplicate test although they are one place *)
+Theorem C16_paths_checked_refuted_root :
+  let o := orc root_jobs in
+  export_paths o root_jobs root_spec = ROk [q "."; q "r1"]
+  /\ locs_prefix_free [q "."; q "r1"] = false
+  /\ (let e := export_model o root_jobs KDir root_spec in
       eo_exn e = None
-      /\ (let i := import_model (orc f7_jobs) SchNone (eo_art e) (dst_init []) in
-          io_exn i = None /\ fs_eqb (io_dst i) (expected_dst [] f7_jobs) = false
-          /\ List.length (fs_children WS (io_dst i)) = 1%nat)).
-Proof. exact f7_witness. Qed.
-Print Assumptions C16_paths_checked_refuted_F7.
+      /\ let i := import_model o SchNone (eo_art e) (dst_init []) in
+         io_exn i = None /\ fs_eqb (io_dst i) (expected_dst [] root_jobs) = false)
+  /\ export_paths o root_jobs (PCall [(j_id j_a1, ROk (q ".")); (j_id j_a2, ROk [])]) = ROk [q "."; []]
+  /\ locs_unique [q "."; []] = false.
+Proof. exact root_witness. Qed.
+Print Assumptions C16_paths_checked_refuted_root.
 
-Theorem C16_paths_checked_refuted_F15 :
-  check_dirs [] [q "a"; q "a/b"] = true /\ check_dirs [] [q "a/b"; q "a"] = false.
-Proof. exact f15_witness. Qed.
-Print Assumptions C16_paths_checked_refuted_F15.
+(* F20' (lex): the copy uses the un-normalised string; os.makedirs on 'a/x/../y' creates 'a/x', and the
+   job that belongs there is refused with FileExistsError after the first job has been copied *)
+Theorem C16_raise_clean_refuted_lex :
+  let o := orc root_jobs in
+  export_paths o root_jobs lex_spec = ROk [q "a/x/../y"; q "a/x"]
+  /\ locs_unique [q "a/x/../y"; q "a/x"] = true /\ locs_prefix_free [q "a/x/../y"; q "a/x"] = true
+  /\ (let e := export_model o root_jobs KDir lex_spec in
+      eo_exn e = Some EOSError /\ art_empty (eo_art e) = false).
+Proof. exact lex_witness. Qed.
+Print Assumptions C16_raise_clean_refuted_lex.
+
+(* the former counterexamples on the repaired model: refused before anything is written (F7, F19),
+   rejected in both orders (F15) *)
+Theorem C16_repaired_F7_F15_F19 :
+  (export_paths (orc f7_jobs) f7_jobs PNone = RExn ERuntimeError
+   /\ (let e := export_model (orc f7_jobs) f7_jobs KDir PNone in
+       eo_exn e = Some ERuntimeError /\ art_empty (eo_art e) = true)
+   /\ (let e := export_model (orc f7_jobs) f7_jobs KZip PNone in
+       eo_exn e = Some ERuntimeError /\ art_empty (eo_art e) = true))
+  /\ (check_dirs [q "a"; q "a/b"] = false /\ check_dirs [q "a/b"; q "a"] = false
+      /\ check_dirs [q "a/c"; q "a/b"] = true)
+  /\ (let js := [j_up; j_a2] in
+      let e := export_model (orc js) js KDir PNone in
+      eo_exn e = Some ERuntimeError /\ art_empty (eo_art e) = true).
+Proof. exact (conj f7_repaired (conj f15_repaired f19_repaired)). Qed.
+Print Assumptions C16_repaired_F7_F15_F19.
 
 (* ====================================================================================================
    2.  the round trip.
-   FULL STATEMENT (false of the faithful model: F6, F18, F21 and the consequences of F7/F15/F20):
+   FULL STATEMENT (still false of the faithful model: F21 empty directories in zip archives, F20'):
      forall o jobs k p, let e := export_model o jobs k p in eo_exn e = None ->
        let i := import_model o SchNone (eo_art e) (dst_init []) in
        io_exn i = None /\ fs_eqb (io_dst i) (expected_dst [] jobs) = true.
-   PROVED (partial): the step the defects live in - "which archive directory becomes which job" - is
-   exact for zip and tar archives whenever the job roots are prefix-free in the sense of the skipping
-   test the analyser uses (STRING prefixes for zip, iterated dirname for tar), no other archive
-   directory is recognised by the schema function, and the ids are new and distinct.  The file-level
-   copy and the directory crawl are covered by the correspondence only (see notes/C16.md). *)
+   PROVED (partial): "which archive directory becomes which job" is exact for zip and tar archives
+   whenever no job root lies in or below another job root (whole path components for zip since
+   56f80f6 - the string-prefix hypothesis is gone; iterated dirname for tar), no other archive
+   directory is recognised by the schema function, and the ids are new and distinct.  The
+   file-level copy and the directory crawl are covered by the correspondence only. *)
 Theorem C16_export_import_roundtrip_partial_zip_mapping :
   forall o sch ms dst0 (roots : list (str * json)) names,
-  (forall r r', In r (List.map fst roots) -> In r' (List.map fst roots) -> startswith r r' = true -> r = r') ->
+  (forall r r', In r (List.map fst roots) -> In r' (List.map fst roots) -> zip_under r r' = true -> r = r') ->
   NoDup (List.map fst roots) ->
   (forall r sp, In (r, sp) roots -> arch_schema_fn o sch (zip_read_sp o ms) r = ROk (Some sp)) ->
   (forall x, ~ In x (List.map fst roots) -> arch_schema_fn o sch (zip_read_sp o ms) x = ROk None) ->
@@ -61,6 +85,12 @@ Theorem C16_export_import_roundtrip_partial_zip_mapping :
   = ROk (expected_maps o roots names).
 Proof. exact zip_mapping_exact. Qed.
 Print Assumptions C16_export_import_roundtrip_partial_zip_mapping.
+
+(* [zip_under r r'] for r <> r' and r' <> '' means: the components of r' are a proper prefix of those of r *)
+Theorem C16_zip_under_is_component_prefix : forall r r',
+  zip_under r r' = true -> r' = [] \/ is_prefix (split 47 r') (split 47 r) = true.
+Proof. exact zip_under_components. Qed.
+Print Assumptions C16_zip_under_is_component_prefix.
 
 Theorem C16_export_import_roundtrip_partial_tar_mapping :
   forall o sch ms dst0 (roots : list (str * json)) names,
@@ -76,34 +106,40 @@ Theorem C16_export_import_roundtrip_partial_tar_mapping :
 Proof. exact tar_mapping_exact. Qed.
 Print Assumptions C16_export_import_roundtrip_partial_tar_mapping.
 
-Theorem C16_roundtrip_refuted_F6 :
-  let o := orc f6_jobs in
-  let e := export_model o f6_jobs KZip PNone in
-  eo_exn e = None /\ eo_map e = [q "a/1"; q "a/10"; q "a/100"]
-  /\ (let i := import_model o SchNone (eo_art e) (dst_init []) in
-      io_exn i = None
-      /\ fs_children WS (io_dst i) = [j_id j_a1; q "10"; q "100"]
-      /\ contained (io_dst i) = false).
-Proof. exact f6_witness. Qed.
-Print Assumptions C16_roundtrip_refuted_F6.
-
-Theorem C16_roundtrip_refuted_F18 :
-  let o := orc [j_a1] in
-  (let e := export_model o [j_a1] KZip PNone in
-   eo_exn e = None /\ eo_map e = [[]]
-   /\ let i := import_model o SchNone (eo_art e) (dst_init []) in io_exn i = None /\ io_dst i = dst_init [])
-  /\ (let e := export_model o [j_a1] KTar PNone in
+(* the former counterexamples F6 (a = 1, 10, 100 through a zip archive) and F18 (a single job through
+   a zip / tar archive) now make an exact round trip in the model, and the former overwrite
+   scenario leaves the existing job alone *)
+Theorem C16_repaired_F6_F18 :
+  (let o := orc f6_jobs in
+   let e := export_model o f6_jobs KZip PNone in
+   eo_exn e = None /\ eo_map e = [q "a/1"; q "a/10"; q "a/100"]
+   /\ (let i := import_model o SchNone (eo_art e) (dst_init []) in
+       io_exn i = None /\ fs_eqb (io_dst i) (expected_dst [] f6_jobs) = true))
+  /\ (let o := orc (j_a1 :: f6o_jobs) in
+      let e := export_model o f6o_jobs KZip f6o_spec in
       eo_exn e = None
-      /\ let i := import_model o SchNone (eo_art e) (dst_init []) in io_exn i = None /\ io_dst i = dst_init []).
-Proof. exact f18_witness. Qed.
-Print Assumptions C16_roundtrip_refuted_F18.
+      /\ (let i := import_model o SchNone (eo_art e) (dst_init [j_a1]) in
+          io_exn i = None /\ pre_untouched [j_a1] (io_dst i) = true
+          /\ fs_eqb (io_dst i) (expected_dst [j_a1] f6o_jobs) = true))
+  /\ (let o := orc [j_a1] in
+      (let e := export_model o [j_a1] KZip PNone in
+       eo_exn e = None /\ eo_map e = [[]]
+       /\ let i := import_model o SchNone (eo_art e) (dst_init []) in
+          io_exn i = None /\ fs_eqb (io_dst i) (expected_dst [] [j_a1]) = true)
+      /\ (let e := export_model o [j_a1] KTar PNone in
+          eo_exn e = None
+          /\ let i := import_model o SchNone (eo_art e) (dst_init []) in
+             io_exn i = None /\ fs_eqb (io_dst i) (expected_dst [] [j_a1]) = true)).
+Proof. exact (conj f6_repaired (conj f6_overwrite_repaired f18_repaired)). Qed.
+Print Assumptions C16_repaired_F6_F18.
 
 (* ====================================================================================================
    3.  export leaves the source unchanged and writes only beneath its target.
    The directory writer is run on an ARBITRARY initial file system f (it may contain the source
    project); [export_frame f g]: every path not below the target is unchanged, or is a missing parent
    directory of the target that has been created.
-   FULL STATEMENT (false: F19): the same for every destination string.
+   FULL STATEMENT: the same for every destination that export_paths accepts (since 3dfa233 a path
+   whose normal form is absolute or starts with '..' is refused: C16_repaired_F7_F15_F19).
    PROVED: for destinations that are [dst_safe] (every path os.makedirs / copytree visits lies in
    the target or is one of its parents).  The zip / tar writers of the model write no file system
    at all (their artefact is the member list), so containment is by construction there. *)
@@ -120,24 +156,27 @@ Theorem C16_export_src_unchanged_partial : forall jds f p n,
 Proof. exact export_src_unchanged. Qed.
 Print Assumptions C16_export_src_unchanged_partial.
 
-Theorem C16_export_contained_refuted_F19 :
-  let js := [j_up; j_a2] in
-  let e := export_model (orc js) js KDir PNone in
-  eo_exn e = None /\ eo_map e = [q "../zz"; q "a/2"]
-  /\ match eo_art e with ADir f => fs_isdir [q "t"; q "e"; q "zz"] f | _ => false end = true.
-Proof. exact f19_witness. Qed.
-Print Assumptions C16_export_contained_refuted_F19.
-
 (* ====================================================================================================
    4.  import never overwrites an existing job and never writes outside job directories.
-   PROVED for directory and tar origins, for EVERY schema (None, string, callable), every archive
-   content and every state of the importing project; REFUTED for zip origins (F6). *)
-Theorem C16_import_never_overwrites_partial : forall o sch a d0,
+   Directory and tar origins: for EVERY schema (None, string, callable), every archive content and
+   every state of the importing project, nothing at or below an existing job directory changes, and
+   every change lies in the directory of a well-formed job id.
+   Zip origins (since 56f80f6): every file and directory of an existing job is still there with the
+   same content, for every schema and project state and every archive whose member names have no
+   '..' component (what ZipInfo.from_file writes for the paths export accepts). *)
+Theorem C16_import_never_overwrites_dir_tar : forall o sch a d0,
   (match a with AZip _ => False | _ => True end) ->
   forall id p, fs_exists (job_dir id) d0 = true -> is_prefix (job_dir id) p = true ->
   fs_get p (io_dst (import_model o sch a d0)) = fs_get p d0.
 Proof. exact import_never_overwrites_dir_tar. Qed.
-Print Assumptions C16_import_never_overwrites_partial.
+Print Assumptions C16_import_never_overwrites_dir_tar.
+
+Theorem C16_import_never_overwrites_zip : forall o sch ms d0,
+  forallb (fun n => no_dotdot (split 47 n)) (List.map fst ms) = true ->
+  forall id0 p n, fs_exists (job_dir id0) d0 = true -> is_prefix (job_dir id0) p = true ->
+  fs_get p d0 = Some n -> fs_get p (io_dst (import_model o sch (AZip ms) d0)) = Some n.
+Proof. exact import_zip_never_overwrites. Qed.
+Print Assumptions C16_import_never_overwrites_zip.
 
 Theorem C16_import_contained_partial : forall o sch a d0,
   (match a with AZip _ => False | _ => True end) ->
@@ -145,15 +184,6 @@ Theorem C16_import_contained_partial : forall o sch a d0,
   (p = WS /\ fs_get p d0 = None) \/ exists id, is_job_id id = true /\ is_prefix (job_dir id) p = true.
 Proof. exact import_contained_dir_tar. Qed.
 Print Assumptions C16_import_contained_partial.
-
-Theorem C16_import_never_overwrites_refuted_zip :
-  let o := orc (j_a1 :: f6o_jobs) in
-  let e := export_model o f6o_jobs KZip f6o_spec in
-  eo_exn e = None
-  /\ (let i := import_model o SchNone (eo_art e) (dst_init [j_a1]) in
-      io_exn i = None /\ pre_untouched [j_a1] (io_dst i) = false).
-Proof. exact f6_overwrite_witness. Qed.
-Print Assumptions C16_import_never_overwrites_refuted_zip.
 
 (* ====================================================================================================
    5.  a schema string parses back the path layout it describes (word-like strings, integers,
@@ -205,7 +235,7 @@ Print Assumptions C16_witness_ids_genuine.
    and import-containment clauses follow from theorems 3 and 4 at the level of fs_get (the oracle
    compares sorted listings); the round-trip clause rests on the correspondence. *)
 Theorem C16_model_holds_partial : forall c,
-  mismatch_C16 c = false -> cls_F7 c = false -> cls_F15 c = false -> cls_F20 c = false ->
+  mismatch_C16 c = false -> cls_root c = false ->
   h_src c = true /\ h_unique c = true /\ h_leafnode c = true.
 Proof. exact model_holds_paths. Qed.
 Print Assumptions C16_model_holds_partial.
